@@ -12,6 +12,7 @@
 (*               nsnap   snapshot operations the command added              *)
 (*   imm record: imm_before   commit ids jj itself lists for immutable()    *)
 (*                       in the view the command started from               *)
+(*               visible_before  ids of all commits visible in that view    *)
 (*               visible_after  ids of all commits visible afterwards       *)
 (*               exempt  the command restores an operation's view           *)
 (*                       (undo, redo, op restore, op revert)                *)
@@ -42,7 +43,9 @@ Verdict(r) ==
   ELSE IF r.op = "panic" THEN "Panic"
   ELSE IF r.op = "cmd" THEN CmdVerdict(r)
   ELSE IF r.op = "imm" THEN
-       IF r.exempt \/ ImmutableKeptOK(ToSet(r.imm_before), ToSet(r.visible_after)) THEN "ok"
+       (* as in Workspace.tla (SeeImmutable): the protected set is Immutable(view) \cap Visible(view);  *)
+       (* `immutable()` also lists hidden commits that a tag or bookmark still names                  *)
+       IF r.exempt \/ ImmutableKeptOK(ToSet(r.imm_before) \cap ToSet(r.visible_before), ToSet(r.visible_after)) THEN "ok"
        ELSE "ImmutableKeptOK"
   ELSE "harness:unknown-op"
 
